@@ -311,6 +311,10 @@ namespace Pistache
         std::size_t start_pos = data.find('[');
         if (start_pos != std::string::npos && end_pos != std::string::npos && start_pos < end_pos)
         {
+            // only a port may follow the closing bracket
+            if (end_pos + 1 < data.size() && data[end_pos + 1] != ':')
+                throw std::invalid_argument("Invalid address: unexpected text after ']'");
+
             std::size_t colon_pos = data.find_first_of(':', end_pos);
             if (colon_pos != std::string::npos)
             {
